@@ -2,6 +2,9 @@
    Only statements, closed by `exact`, pinned by `Check`, audited by `Print Assumptions`.
    `sel` (glob matching on the entry name) and the resolved owner of chown are parameters.
    run_cmd keep pw c nf sel a: the command c with nf patterns on archive a, keep = --keep-solid.
+   eff_sel c nf sel: the selection the command works with — the patterns', except that `pna strip ARCHIVE` without
+   FILES takes every entry (strip.rs after 4d97c0da: globs.is_empty() || globs.matches_any(name)); migrate takes no
+   patterns (selects_all).  touched s c e = selects_all c || s (le_name e).
    C10_idempotent covers chmod, chown, xattr set/remove, strip, delete at full strength;
    C10_idempotent_acl_partial covers acl set / migrate under the premise that the regrouped ACL
    chunks read back as the map that was written (what is missing for full strength: the print/parse
@@ -15,26 +18,90 @@ Proof. exact transform_entries. Qed.
 Check C10_rewrite_is_entrywise : forall keep pw f a a', transform keep pw f a = Ok a' -> map_entries f (entries a) = Ok (entries a').
 Print Assumptions C10_rewrite_is_entrywise.
 
+(* FRAME, now also for strip with FILES: an entry the command's selection does not take is unchanged *)
 Theorem C10_frame : forall sel keep pw c nf a a', run_cmd keep pw c nf sel a = Ok a' -> c <> CDelete ->
-  Forall2 (fun e e' => le_name e' = le_name e /\ (touched sel c e = false -> e' = e)) (entries a) (entries a').
+  Forall2 (fun e e' => le_name e' = le_name e /\ (touched (eff_sel c nf sel) c e = false -> e' = e)) (entries a) (entries a').
 Proof. exact frame_entries. Qed.
 Check C10_frame : forall sel keep pw c nf a a', run_cmd keep pw c nf sel a = Ok a' -> c <> CDelete ->
-  Forall2 (fun e e' => le_name e' = le_name e /\ (touched sel c e = false -> e' = e)) (entries a) (entries a').
+  Forall2 (fun e e' => le_name e' = le_name e /\ (touched (eff_sel c nf sel) c e = false -> e' = e)) (entries a) (entries a').
 Print Assumptions C10_frame.
 
 Theorem C10_frame_untouched : forall sel keep pw c nf a a', run_cmd keep pw c nf sel a = Ok a' ->
-  filter (fun e => negb (touched sel c e)) (entries a') = filter (fun e => negb (touched sel c e)) (entries a).
+  filter (fun e => negb (touched (eff_sel c nf sel) c e)) (entries a')
+  = filter (fun e => negb (touched (eff_sel c nf sel) c e)) (entries a).
 Proof. exact frame_untouched. Qed.
 Check C10_frame_untouched : forall sel keep pw c nf a a', run_cmd keep pw c nf sel a = Ok a' ->
-  filter (fun e => negb (touched sel c e)) (entries a') = filter (fun e => negb (touched sel c e)) (entries a).
+  filter (fun e => negb (touched (eff_sel c nf sel) c e)) (entries a')
+  = filter (fun e => negb (touched (eff_sel c nf sel) c e)) (entries a).
 Print Assumptions C10_frame_untouched.
 
+(* what the selection is: the patterns' for every command but strip; strip: every entry iff no pattern was given *)
+Theorem C10_selection : forall c nf sel,
+  ((forall o, c <> CStrip o) -> eff_sel c nf sel = sel) /\
+  (forall o e, touched (eff_sel (CStrip o) nf sel) (CStrip o) e = (nf =? 0) || sel (le_name e)).
+Proof. exact (fun c nf sel => conj (eff_sel_other c nf sel) (fun o e => touched_strip o nf sel e)). Qed.
+Check C10_selection : forall c nf sel,
+  ((forall o, c <> CStrip o) -> eff_sel c nf sel = sel) /\
+  (forall o e, touched (eff_sel (CStrip o) nf sel) (CStrip o) e = (nf =? 0) || sel (le_name e)).
+Print Assumptions C10_selection.
+
+(* `pna strip ARCHIVE FILES...`: an entry FILES do not select is unchanged in every attribute, position by position;
+   the unselected entries are the same sequence before and after *)
+Theorem C10_frame_strip_patterns : forall sel keep pw o nf a a',
+  run_cmd keep pw (CStrip o) nf sel a = Ok a' -> nf <> 0 ->
+  Forall2 (fun e e' => le_name e' = le_name e /\ (sel (le_name e) = false -> e' = e)) (entries a) (entries a').
+Proof. exact frame_strip_patterns. Qed.
+Check C10_frame_strip_patterns : forall sel keep pw o nf a a',
+  run_cmd keep pw (CStrip o) nf sel a = Ok a' -> nf <> 0 ->
+  Forall2 (fun e e' => le_name e' = le_name e /\ (sel (le_name e) = false -> e' = e)) (entries a) (entries a').
+Print Assumptions C10_frame_strip_patterns.
+
+Theorem C10_frame_untouched_strip_patterns : forall sel keep pw o nf a a',
+  run_cmd keep pw (CStrip o) nf sel a = Ok a' -> nf <> 0 ->
+  filter (fun e => negb (sel (le_name e))) (entries a') = filter (fun e => negb (sel (le_name e))) (entries a).
+Proof. exact frame_untouched_strip_patterns. Qed.
+Check C10_frame_untouched_strip_patterns : forall sel keep pw o nf a a',
+  run_cmd keep pw (CStrip o) nf sel a = Ok a' -> nf <> 0 ->
+  filter (fun e => negb (sel (le_name e))) (entries a') = filter (fun e => negb (sel (le_name e))) (entries a).
+Print Assumptions C10_frame_untouched_strip_patterns.
+
 Theorem C10_effect : forall sel keep pw c nf a a', run_cmd keep pw c nf sel a = Ok a' -> c <> CDelete ->
-  (nf = 0 -> forall n, sel n = false) -> Forall2 (step_rel sel c) (entries a) (entries a').
+  (nf = 0 -> forall n, sel n = false) -> Forall2 (step_rel (eff_sel c nf sel) c) (entries a) (entries a').
 Proof. exact effect_entries. Qed.
 Check C10_effect : forall sel keep pw c nf a a', run_cmd keep pw c nf sel a = Ok a' -> c <> CDelete ->
-  (nf = 0 -> forall n, sel n = false) -> Forall2 (step_rel sel c) (entries a) (entries a').
+  (nf = 0 -> forall n, sel n = false) -> Forall2 (step_rel (eff_sel c nf sel) c) (entries a) (entries a').
 Print Assumptions C10_effect.
+
+(* strip, effect and frame in one equation: every entry without FILES, exactly the selected ones with FILES *)
+Theorem C10_effect_strip_run : forall sel keep pw o nf a a', run_cmd keep pw (CStrip o) nf sel a = Ok a' ->
+  Forall2 (fun e e' => e' = if (nf =? 0) || sel (le_name e) then cmd_strip o e else e) (entries a) (entries a').
+Proof. exact effect_strip. Qed.
+Check C10_effect_strip_run : forall sel keep pw o nf a a', run_cmd keep pw (CStrip o) nf sel a = Ok a' ->
+  Forall2 (fun e e' => e' = if (nf =? 0) || sel (le_name e) then cmd_strip o e else e) (entries a) (entries a').
+Print Assumptions C10_effect_strip_run.
+
+(* strip as it was before 4d97c0da (run_cmd_orig: FILES accepted and ignored): `pna strip x.pna b` on
+   [a; solid [b; c]] strips a and c as well — the frame statement above fails on the old transformer *)
+Theorem C10_strip_ignored_patterns_unrepaired_refuted :
+  exists a', run_cmd_orig true false (CStrip strip_all) 1 strip_sel ex_archive = Ok a' /\
+    ~ Forall2 (fun e e' => le_name e' = le_name e /\ (strip_sel (le_name e) = false -> e' = e)) (entries ex_archive) (entries a').
+Proof. exact strip_ignored_patterns_unrepaired. Qed.
+Check C10_strip_ignored_patterns_unrepaired_refuted :
+  exists a', run_cmd_orig true false (CStrip strip_all) 1 strip_sel ex_archive = Ok a' /\
+    ~ Forall2 (fun e e' => le_name e' = le_name e /\ (strip_sel (le_name e) = false -> e' = e)) (entries ex_archive) (entries a').
+Print Assumptions C10_strip_ignored_patterns_unrepaired_refuted.
+
+(* the premises of C10_frame_strip_patterns are satisfiable: the repaired command on the same input strips b alone;
+   without FILES every entry is stripped, as before *)
+Example C10_strip_patterns_example :
+  exists a', run_cmd true false (CStrip strip_all) 1 strip_sel ex_archive = Ok a' /\
+    entries a' = [ex_entry (lit "a"); cmd_strip strip_all (ex_entry (lit "b")); ex_entry (lit "c")] /\
+    cmd_strip strip_all (ex_entry (lit "b")) <> ex_entry (lit "b").
+Proof. exact strip_patterns_repaired. Qed.
+Example C10_strip_no_patterns_example :
+  exists a', run_cmd true false (CStrip strip_all) 0 (fun _ => false) ex_archive = Ok a' /\
+    entries a' = map (cmd_strip strip_all) (entries ex_archive).
+Proof. exact strip_no_patterns. Qed.
 
 Theorem C10_delete_exact : forall sel keep pw nf a a', run_cmd keep pw CDelete nf sel a = Ok a' ->
   entries a' = filter (fun e => negb (sel (le_name e))) (entries a).
